@@ -19,7 +19,7 @@ package model
 //@   requires packetsNonNil(m) && fieldsNonNil(packet)
 //@   ensures  packetsNonNil(m)
 
-//@ pred metaAttr(a FieldAttribute) := typeis(a, *BasicFieldAttribute) || typeis(a, *FixedStringFieldAttribute) || typeis(a, *DynamicStringFieldAttribute)
+//@ pred metaAttr(a FieldAttribute) := typeis(a, *BasicFieldAttribute) || (typeis(a, *FixedStringFieldAttribute) && 0 <= unbox(a, *FixedStringFieldAttribute).Length && unbox(a, *FixedStringFieldAttribute).Length <= 16777216) || typeis(a, *DynamicStringFieldAttribute)
 //@ pred metaWF(m *BinaryModel) := forallkey(k, m.MetaDataMap, metaAttr(m.MetaDataMap[k].Attr))
 //@ pred modelOK(m *BinaryModel) := m != nil && m.MetaDataMap != nil && m.Options != nil && m.PacketsMap != nil
 
